@@ -141,6 +141,25 @@ for d in sorted(glob.glob(os.path.join(V, 'harmless/*/meta.json'))):
             v += ' (first run: alarm on %s; machinery reworked)' % ', '.join(obs)
         hrows.append('| %s | %s | %s | %s |\n' % (m['id'], p, summ, v))
 w('\n%d runs of harmless patches are filed: %d quiet, %d alarms; %d of the quiet ones alarmed before the rework.\n' % (len(hrows), hq, ha, hfirst))
+# cross matrix
+cq = ca = cfirst = 0
+cal = []
+for d in sorted(glob.glob(os.path.join(V, 'harmless/*/meta.json'))):
+    m = json.load(open(d))
+    for p, c in (m.get('cross_checks') or {}).items():
+        if c['verdict'] == 'quiet':
+            cq += 1
+            if c.get('first_run'):
+                cfirst += 1
+                obs = sorted({b[0] for x in c['first_run'].get('detail', []) for b in x.get('broken', [])})
+                cal.append('%s vs. %s: quiet now; first run alarmed on %s' % (m['id'], p, ', '.join(obs)))
+        else:
+            ca += 1
+            obs = sorted({b[0] for x in c.get('detail', []) for b in x.get('broken', [])})
+            cal.append('%s vs. %s: **alarm** (%s)' % (m['id'], p, ', '.join(obs)))
+w('\nCross matrix (`tools/cross_harmless.py`): every patch was also run against the quick checks of the *other* properties '
+  'anchored in the files it touches (a refactoring of `marshal.py` written for C01 must not alarm C02, C03, C05, C17, C18, '
+  'C19 or C20 either): %d runs, %d quiet, %d alarms%s\n' % (cq + ca, cq, ca, ('; ' + '; '.join(cal) + '.') if cal else '.'))
 w('\n| id | check | what the change does | verdict of the quick check |\n|---|---|---|---|\n')
 out.extend(hrows)
 
